@@ -58,7 +58,7 @@ def get_povm_names_1qubit() -> List[str]:
 
 
 def _get_povm_names_2qubit_typical() -> List[str]:
-    return ["bell"]
+    return ["bell", "xxparity", "zzparity"]
 
 
 def get_povm_names_2qubit() -> List[str]:
@@ -145,7 +145,7 @@ def get_povm_names_not_rank1() -> List[str]:
     List[str]
         the list of valid povm names of not rank 1.
     """
-    names = ["z2"]
+    names = ["z2", "xxparity", "zzparity"]
     return names
 
 
@@ -294,10 +294,12 @@ def _generate_povm_matrices_from_single_name(povm_name: str) -> List[np.ndarray]
                 generate_state_density_mat_from_name("01z1")
                 + generate_state_density_mat_from_name("02z1"),
             ]
-        else:
-            method_name = "get_povm_" + povm_name.replace("-", "") + "_povm_matrices"
+        elif povm_name in get_povm_names_not_rank1():
+            method_name = "get_povm_" + povm_name + "_povm_matrices"
             method = eval(method_name)
             matrices = method()
+        else:
+            raise ValueError(f"povm_name is out of range. povm_name={povm_name}")
 
     return matrices
 
